@@ -27,6 +27,7 @@ import (
 	"strconv"
 	"strings"
 	"testing"
+	"time"
 
 	"github.com/hashicorp/consul/internal/verifkit"
 	"github.com/hashicorp/go-hclog"
@@ -852,3 +853,110 @@ func TestVerifC20Replay(t *testing.T) {
 }
 
 var _ = tar.TypeReg
+
+// TestVerifC20RaftPath: archives produced by the real snapshot.New on an in-memory raft; sampled faults are fed to
+// snapshot.Restore on a second raft. Oracle: Restore either fails and leaves the target FSM untouched ("never
+// handed to restore") or succeeds and the target FSM holds exactly the source's logs.
+func TestVerifC20RaftPath(t *testing.T) {
+	rec := verifkit.For("C20")
+	defer rec.Flush()
+	verifC20TmpDir(t)
+	dir := t.TempDir()
+	src, _ := makeRaft(t, filepath.Join(dir, "src"))
+	defer src.Shutdown()
+	dst, dstFSM := makeRaft(t, filepath.Join(dir, "dst"))
+	defer dst.Shutdown()
+	logger := hclog.NewNullLogger()
+	var applied [][]byte
+	// the target must hold something recognisable so that "untouched" is observable
+	if err := dst.Apply([]byte("dst-sentinel"), 5*time.Second).Error(); err != nil {
+		t.Fatalf("apply: %v", err)
+	}
+	dstLogs := func() [][]byte {
+		dstFSM.Lock()
+		defer dstFSM.Unlock()
+		out := make([][]byte, len(dstFSM.logs))
+		for i, l := range dstFSM.logs {
+			out[i] = append([]byte(nil), l...)
+		}
+		return out
+	}
+	rapid.Check(t, func(t *rapid.T) {
+		c := rec.NewCase()
+		n := rapid.IntRange(1, 6).Draw(t, "nlogs")
+		for i := 0; i < n; i++ {
+			b := rapid.SliceOfN(rapid.Byte(), 0, 300).Draw(t, "log")
+			if err := src.Apply(b, 5*time.Second).Error(); err != nil {
+				t.Fatalf("apply: %v", err)
+			}
+			applied = append(applied, b)
+		}
+		snap, err := New(logger, src)
+		if err != nil {
+			t.Fatalf("snapshot.New: %v", err)
+		}
+		arch, err := io.ReadAll(snap)
+		snap.Close()
+		if err != nil {
+			t.Fatalf("read archive: %v", err)
+		}
+		c.Op(map[string]any{"kind": "raft-archive", "logs": len(applied), "archive_len": len(arch)})
+		c.Label("raft-path")
+		before := dstLogs()
+		nf := rapid.IntRange(4, 10).Draw(t, "nfaults")
+		for i := 0; i < nf; i++ {
+			a := append([]byte(nil), arch...)
+			f := verifC20Fault{Kind: pick3(rapid.IntRange(0, 2).Draw(t, "fk"))}
+			switch f.Kind {
+			case "flip":
+				f.Pos, f.Mask = rapid.IntRange(0, len(a)-1).Draw(t, "pos"), rapid.SampledFrom(verifC20Masks).Draw(t, "mask")
+				a[f.Pos] ^= byte(f.Mask)
+			case "trunc":
+				f.Pos = rapid.IntRange(0, len(a)-1).Draw(t, "len")
+				a = a[:f.Pos]
+			case "append":
+				a = append(a, []byte("garbage")...)
+			}
+			rec.AddExtraInt("faults_tried", 1)
+			rec.AddExtraInt("faults_region_raft-"+f.Kind, 1)
+			err := Restore(logger, bytes.NewReader(a), dst)
+			got := dstLogs()
+			if err != nil {
+				if !verifC20SameLogs(got, before) {
+					c.Op(f)
+					c.Violation(t, "C20/rejected-archive-reached-restore", "Restore failed (%v) for fault %+v but the target FSM changed (%d -> %d logs)", err, f, len(before), len(got))
+				}
+				continue
+			}
+			if !verifC20SameLogs(got, applied) {
+				c.Op(f)
+				c.Violation(t, "C20/accepted-different-state/raft-"+f.Kind, "Restore accepted fault %+v but the target FSM holds %d logs, source has %d", f, len(got), len(applied))
+			}
+			before = got
+		}
+		// the intact archive restores exactly
+		if err := Restore(logger, bytes.NewReader(arch), dst); err != nil {
+			c.Violation(t, "C20/roundtrip-rejected", "Restore of the intact archive failed: %v", err)
+		}
+		if got := dstLogs(); !verifC20SameLogs(got, applied) {
+			c.Violation(t, "C20/roundtrip-state", "Restore of the intact archive: target has %d logs, source %d", len(got), len(applied))
+		}
+		c.NonTrivial()
+		c.Done()
+		verifC20CleanTmp()
+	})
+}
+
+func pick3(i int) string { return []string{"flip", "trunc", "append"}[i] }
+
+func verifC20SameLogs(a, b [][]byte) bool {
+	if len(a) != len(b) {
+		return false
+	}
+	for i := range a {
+		if !bytes.Equal(a[i], b[i]) {
+			return false
+		}
+	}
+	return true
+}
